@@ -145,7 +145,7 @@ func TestC18(t *testing.T) {
 		r := NewRun(t, "C18")
 		defer r.Close()
 		// (with `c18-fork` marker lines: of a continue-after-import violation, see c18_continue_test.go)
-		c18Apply(r, c18Package(r, strings.Fields(lines[0])[1], lines[1:], 0))
+		c18Apply(r, c18Package(r, strings.Fields(lines[0])[1], c18WithMarkers(lines)[1:], 0))
 		return
 	}
 	if os.Getenv("VERIF_REPLAY") == "" && os.Getenv("C18_NO_PKGS") == "" { // C18_NO_PKGS: C12 runs this harness as one of its packages
